@@ -171,6 +171,35 @@ def Page.apply (pg : Page) : JsCall → Page
 
 def Page.applyAll (pg : Page) (cs : List JsCall) : Page := cs.foldl Page.apply pg
 
+/-! ### histories: the operations an application performs, and the page they leave (used by Props.C19) -/
+
+inductive WOp where
+  | setContent (x y : Int) (m : Rune) (c : List Rune) (st : Style)
+  | fill (r : Rune) (st : Style)
+  | lockCell (x y : Int)         -- LockRegion is a loop of these
+  | unlockCell (x y : Int)
+  | present                      -- Show
+  | sync
+  | setSize (w h : Int)
+deriving Repr
+
+/-- side condition of the history theorem: no zero-width rune is stored as the main rune of a cell (combining
+characters belong in `combc`) -/
+def WOp.ok (rw : Rune → Int) : WOp → Prop
+  | .setContent _ _ m _ _ => m ≤ 32 ∨ rw m ≠ 0
+  | _ => True
+
+def stepW (p : Pal) (rw : Rune → Int) (sp : WS × Page) : WOp → WS × Page
+  | .setContent x y m c st => (setContent rw sp.1 x y m c st, sp.2)
+  | .fill r st => (fill sp.1 r st, sp.2)
+  | .lockCell x y => ({ sp.1 with cells := sp.1.cells.lockCell x y }, sp.2)
+  | .unlockCell x y => ({ sp.1 with cells := sp.1.cells.unlockCell x y }, sp.2)
+  | .present => ((WScreen.show p sp.1).1, sp.2.applyAll (WScreen.show p sp.1).2)
+  | .sync => ((sync p sp.1).1, sp.2.applyAll (sync p sp.1).2)
+  | .setSize w h => ((setSize sp.1 w h).1, sp.2.applyAll (setSize sp.1 w h).2)
+
+def runW (p : Pal) (rw : Rune → Int) (sp : WS × Page) (ops : List WOp) : WS × Page := ops.foldl (stepW p rw) sp
+
 /-! ### callbacks: onKeyEvent / onMouseEvent / onPaste / onFocus (wscreen.go:319-411) -/
 
 inductive Ev where
